@@ -9,7 +9,7 @@ sys.path.insert(0, os.path.dirname(os.path.dirname(os.path.abspath(__file__))))
 from genlib import *
 
 LEAN_MODULES = ["MpirProofs.Props.C01_fftinv"]
-THEOREMS = ["Mpir.FftX.ifft_radix2_twiddle_inverts", "Mpir.FftX.ifft_trunc1_twiddle_recovers", "Mpir.FftX.ifft_mfa_outer_recovers",
+THEOREMS = ["Mpir.FftX.ifft_radix2_twiddle_inverts", "Mpir.FftX.ifft_trunc1_twiddle_recovers", "Mpir.FftX.ifft_mfa_trunc_sqrt2_inverts", "Mpir.FftX.ifft_mfa_outer_recovers",
             "Mpir.FftX.mfa_convolution_chain", "Mpir.FftX.mul_mfa_trunc_sqrt2_val", "Mpir.FftX.mul_fft_main_val"]
 PINS = [("fft/fft_mfa_trunc_sqrt2.c", "mpir_fft_mfa_trunc_sqrt2_outer"),
         ("fft/fft_mfa_trunc_sqrt2_inner.c", "mpir_fft_mfa_trunc_sqrt2_inner"),
